@@ -12,7 +12,8 @@ RULE = ("(a) exhaustive: for every N in 2..5 and every m with N*m <= LIMIT (quic
         "consecutive subintervals (i, i+1) must map to face-adjacent cells (one coordinate, one cell); (b) "
         "Hypothesis-generated deep cases, N*m<=50: consecutive pairs with indices weighted to the ends, the tail "
         "and sub-cube boundaries; parent/child nesting at densities m and m+1; point pairs (x', x'') at every scale "
-        "2^-k, k=0..N*m, exact dyadics, uniform or straddling a subinterval boundary of some level, arbitrary box, "
+        "2^-k, k=0..N*m, exact dyadics, uniform or straddling a subinterval boundary of some level, arbitrary box (configured through the "
+        "constructor, SetBounds, or reached through a query history as in C07), "
         "checked against ||y'-y''|| <= 2*sqrt(N+3)*|x'-x''|^(1/N)*(largest side). Non-trivial: a pair whose points "
         "are closer than one level-j subinterval but lie in different level-j subintervals for some j>=2 (where a "
         "wrong orientation shows), or a consecutive pair with i+1 divisible by 2^N. Exhaustive pairs are counted.")
